@@ -63,11 +63,11 @@ def slice_with_int_dask_array(x, index):
         if isinstance(idx, Array) and idx.dtype.kind in "iu":
             if idx.ndim == 0:
                 idx = idx[np.newaxis]
-                x = slice_with_int_dask_array_on_axis(x, idx, out_axis, in_axis)
+                x = slice_with_int_dask_array_on_axis(x, idx, out_axis)
                 x = x[tuple(0 if i == out_axis else slice(None) for i in range(x.ndim))]
                 dropped_axis_cnt += 1
             elif idx.ndim == 1:
-                x = slice_with_int_dask_array_on_axis(x, idx, out_axis, in_axis)
+                x = slice_with_int_dask_array_on_axis(x, idx, out_axis)
                 out_index.append(slice(None))
             else:
                 raise NotImplementedError(
@@ -148,7 +148,7 @@ def normalize_index(idx, shape):
     return idx
 
 
-def slice_with_int_dask_array_on_axis(x, idx, axis, in_axis):
+def slice_with_int_dask_array_on_axis(x, idx, axis):
     """Slice a ND dask array with a 1D dask arrays of ints along the given
     axis.
 
@@ -171,7 +171,8 @@ def slice_with_int_dask_array_on_axis(x, idx, axis, in_axis):
     # e.g. chunks=(..., (5, 3, 4), ...) -> offset=[0, 5, 8]
     offset = np.roll(np.cumsum(np.asarray(x.chunks[axis], like=x._meta)), 1)
     offset[0] = 0
-    offset = ArrayOffsetDep(x.chunks, offset, in_axis)
+    # The offsets are blocked like (and only like) ``x`` along ``axis``
+    offset = ArrayOffsetDep((x.chunks[axis],), offset, 0)
     # Define axis labels for blockwise
 
     p_axes = x_axes[: axis + 1] + idx_axes + x_axes[axis + 1 :]
@@ -186,7 +187,7 @@ def slice_with_int_dask_array_on_axis(x, idx, axis, in_axis):
         idx,
         idx_axes,
         offset,
-        p_axes,
+        (x_axes[axis],),
         x_size=x.shape[axis],
         axis=axis,
         dtype=x.dtype,
